@@ -367,6 +367,11 @@ func (w *routeWorld) recordExt(rt swaptypes.Route, amount sdkmath.Int, reverse b
 			return sdkmath.Int{}, fmt.Errorf("negative")
 		}
 		dir := "in"
+		if reverse {
+			dir = "out"
+		}
+		key := fmt.Sprintf("%s id=%d din=%s dout=%s amt=%s", dir, p.PoolId, din, dout, a)
+		// q: the read-only quote
 		func() {
 			defer func() {
 				if r := recover(); r != nil {
@@ -376,17 +381,40 @@ func (w *routeWorld) recordExt(rt swaptypes.Route, amount sdkmath.Int, reverse b
 			if !reverse {
 				res, err = lp.CalculateResultExactAmountIn(ctx, pool, sdk.NewCoin(din, a), dout, true)
 			} else {
-				dir = "out"
 				res, err = lp.CalculateResultExactAmountOut(ctx, pool, sdk.NewCoin(dout, a), din, true)
 			}
 		}()
-		key := fmt.Sprintf("%s id=%d din=%s dout=%s amt=%s", dir, p.PoolId, din, dout, a)
+		// x: dry-run of the swap itself on the pre-state with a sender that holds everything (discarded)
+		var xres sdkmath.Int
+		var xerr error
+		func() {
+			defer func() {
+				if r := recover(); r != nil {
+					xerr = fmt.Errorf("panic %v", r)
+				}
+			}()
+			dry, _ := ctx.CacheContext()
+			if !reverse {
+				xres, xerr = lp.SwapExactAmountIn(dry, w.c.Accs[3].Addr, pool, sdk.NewCoin(din, a), dout, true)
+			} else {
+				xres, xerr = lp.SwapExactAmountOut(dry, w.c.Accs[3].Addr, pool, sdk.NewCoin(dout, a), din, true)
+			}
+		}()
 		if !seen[key] {
 			seen[key] = true
 			if err != nil {
-				w.e.In("ext pool %s r=err", key)
+				w.e.In("ext pool q %s r=err", key)
 			} else {
-				w.e.In("ext pool %s r=%s", key, res)
+				w.e.In("ext pool q %s r=%s", key, res)
+			}
+			if xerr != nil {
+				w.e.In("ext pool x %s r=err", key)
+			} else {
+				w.e.In("ext pool x %s r=%s", key, xres)
+			}
+			// pool contract used by the theorems: a swap that succeeds returns what the quote said
+			if xerr == nil {
+				w.e.Oracle("pool_swap_eq_quote", err == nil && res.Equal(xres), "pool %s quote=%v swap=%s", key, res, xres)
 			}
 		}
 		return res, err
@@ -626,6 +654,7 @@ func (w *routeWorld) history(h int) {
 			ok          bool
 			res         string
 			fee, amount sdkmath.Int // amount = net out (exact-in) / amount in (exact-out)
+			rr          swaptypes.RouteResult
 		}
 		var q quote
 		if structurallyValid {
@@ -647,13 +676,13 @@ func (w *routeWorld) history(h int) {
 					resp, err := w.qs.CalculationSwapExactAmountIn(ctx, &swaptypes.QueryCalculationSwapExactAmountInRequest{HasInterfaceFee: withProv, Route: &route, AmountIn: amount.String()})
 					qerr = err
 					if err == nil {
-						q = quote{true, encResult(resp.Result), resp.InterfaceProviderFee, resp.AmountOut}
+						q = quote{true, encResult(resp.Result), resp.InterfaceProviderFee, resp.AmountOut, resp.Result}
 					}
 				} else {
 					resp, err := w.qs.CalculationSwapExactAmountOut(ctx, &swaptypes.QueryCalculationSwapExactAmountOutRequest{HasInterfaceFee: withProv, Route: &route, AmountOut: amount.String()})
 					qerr = err
 					if err == nil {
-						q = quote{true, encResult(resp.Result), resp.InterfaceProviderFee, resp.AmountIn}
+						q = quote{true, encResult(resp.Result), resp.InterfaceProviderFee, resp.AmountIn, resp.Result}
 					}
 				}
 			}()
@@ -767,8 +796,17 @@ func (w *routeWorld) history(h int) {
 			// of the input denom (and possibly nothing else) => the swap must go through
 			if q.ok && kind == "valid" && fundKind != "short" && limit.IsPositive() {
 				within := (exactIn && q.amount.GTE(limit)) || (!exactIn && q.amount.LTE(limit))
-				if within {
+				zeroLeg := false
+				resultLeaves(q.rr, func(id uint64, in, out sdk.Coin) {
+					if !in.Amount.IsPositive() || !out.Amount.IsPositive() {
+						zeroLeg = true
+					}
+				})
+				if within && !zeroLeg {
 					e.Oracle("input_denom_suffices", false, "%s quote=%s err=%.120s", desc, q.amount, fmt.Sprint(err))
+				} else if within {
+					// the pool keeper refuses a swap whose computed amount is zero, the quote does not
+					e.Oracle("zero_leg_executes", false, "%s quote=%s err=%.120s", desc, q.amount, fmt.Sprint(err))
 				}
 			}
 			continue
